@@ -1,29 +1,24 @@
 import OZ.DrvUtil
-import OZ.Model.FeeForwarder
+import OZ.Model.FeeForwarderMon
 /-
-Driver for C19 (fee forwarding). `op`: parse an `ff …` op line, run the MODEL
-(OZ.FeeForwarder), print the model's observation in the harness's format. `mon`: the
-property's conclusion evaluated directly on the IMPLEMENTATION's observation lines (own
-ghost state only: previous observation and the set of allowed tokens; it never calls the
-model's transition functions).
+Driver for C19 (fee forwarding). It only PARSES: `parseIn` an `ff …` op line, `parseObs` an
+observation line. `op` runs the MODEL (`OZ.FeeForwarder.Mon.mstep` = `OZ.FeeForwarder.apply` on the
+invocation the line stands for) and prints the model's observation in the harness's format. `mon`
+calls `OZ.FeeForwarder.Mon.checkCore`: the property's conclusion evaluated directly on the
+IMPLEMENTATION's observation lines (own ghost state only: previous observation and the set of
+allowed tokens; it never calls the model's transition functions). `checkCore` is proved sound in
+OZ/Props/C19Mon.lean (`monitor_accepts_every_model_trace`); it covers EVERY check of the monitor —
+no string-level check remains in this file (the only message produced here is `site=ff.parse`).
 
 Address universe (fixed by harness/src/bin/c19.rs): 0..5 accounts (0 admin, 1 manager,
 2 and 3 executors), 6 the forwarder, 7 the target contract, 8..11 fee tokens.
 -/
 namespace OZ.Drv.C19
-open OZ.Drv OZ.Host OZ.FeeForwarder
+open OZ.Drv OZ.Host OZ.FeeForwarder OZ.FeeForwarder.Mon
 
-def FWD : Nat := 6
-def TGT : Nat := 7
-def TOK0 : Nat := 8
-def NTOK : Nat := 4
-def NHOLD : Nat := 8
 def MAX_TTL : Nat := 6312000
 
-def fnNames : List String := ["?", "ping", "add", "add2", "boom", "uadd", "nofn", "transfer", "balance"]
-
 def fnId (n : String) : Nat := if n = "approve" then FN_APPROVE else (fnNames.findIdx? (· = n)).getD 0
-def fnName (i : Nat) : String := if i = FN_APPROVE then "approve" else fnNames.getD i "?"
 
 def parseVal (w : String) : Option Val :=
   let rest := (w.drop 1).toString
@@ -34,30 +29,24 @@ def parseVal (w : String) : Option Val :=
 
 def parseVals (s : String) : List Val := if s = "-" ∨ s = "" then [] else (s.splitOn ",").filterMap parseVal
 
-def showVal : Val → String
-  | .addr a => s!"a{a}"
-  | .i128 v => s!"i{v}"
-  | .u32 n => s!"u{n}"
-
-def showVals (sep : String) (l : List Val) : String := if l.isEmpty then "-" else sep.intercalate (l.map showVal)
-
 structure M where
   p : Params
   s : State
-  var : String
+  var : Var
+
+def parseVar (label : String) : Var :=
+  match (kv? (words label) "v").getD "pl" with
+  | "pl" => .pl
+  | "pd" => .pd
+  | "lib" => .lib
+  | _ => .other
 
 def initM (label : String) : M :=
   let ws := words label
   let mt := (kvNat? ws "min_temp").getD 16
   let st := (kvNat? ws "start").getD 100
   let mx := (kvNat? ws "max_ttl").getD MAX_TTL
-  { p := { cfg := ⟨mt, mx⟩, self := FWD, managers := [1], executors := [2, 3] }, s := init st,
-    var := (kv? ws "v").getD "pl" }
-
-/-- one parsed op line: the authorization, the op, and how to print `dem=` on success -/
-structure Parsed where
-  au : Auth
-  op : Op
+  { p := params ⟨mt, mx⟩, s := init st, var := parseVar label }
 
 def parseInv (t : String) : Option Inv :=
   match t.splitOn ":" with
@@ -74,90 +63,47 @@ def parseUserAuth (ws : List String) : Option UserAuth := do
     pure { signer, tuple := ⟨← tok.toNat?, ← mx.toInt?, ← ex.toNat?, ← tg.toNat?, fnId f, parseVals a⟩, subs }
   | _ => none
 
-def everyone : List Nat := List.range 12
-
 def parseTarget (s : String) : Target := if s = "ok" then .ok else if s = "user" then .needsUser else .fail
 
-def parseOp (m : M) (ws : List String) : Option Parsed :=
+/-- one op line with its fields parsed (`none`: not an `ff` line / a required field is missing) -/
+def parseIn (ws : List String) : Option In :=
   match ws with
   | "ff" :: "mint" :: r => do
-    pure ⟨⟨[], none⟩, .mint (← kvNat? r "tok") (← kvNat? r "to") (← kvInt? r "amt")⟩
+    pure (.mint (← kvNat? r "tok") (← kvNat? r "to") (← kvInt? r "amt"))
   | "ff" :: "approve" :: r => do
-    pure ⟨⟨natList ((kv? r "auth").getD "-"), none⟩,
-      .approve (← kvNat? r "tok") (← kvNat? r "owner") (← kvNat? r "sp") (← kvInt? r "amt") (← kvNat? r "lu")⟩
-  | "ff" :: "advance" :: r => do pure ⟨⟨[], none⟩, .advance (← kvNat? r "n")⟩
+    pure (.approve (natList ((kv? r "auth").getD "-"))
+      (← kvNat? r "tok") (← kvNat? r "owner") (← kvNat? r "sp") (← kvInt? r "amt") (← kvNat? r "lu"))
+  | "ff" :: "advance" :: r => do pure (.advance (← kvNat? r "n"))
   | "ff" :: "forward" :: r => do
     let c : Call := { token := ← kvNat? r "tok", fee := ← kvInt? r "fee", maxFee := ← kvInt? r "max",
                       expiration := ← kvNat? r "exp", target := ← kvNat? r "target",
                       fn := fnId (← kv? r "fn"), args := parseVals (← kv? r "args") }
     let user ← kvNat? r "user"
     let rel ← kvNat? r "rel"
-    let tgt := parseTarget ((kv? r "tgt").getD "fail")
-    let all := (kv? r "mode") = some "all"
-    let au : Auth :=
-      if all then
-        -- recording mode: every demanded authorization is granted
-        { plain := everyone,
-          user := some { signer := user, tuple := tupleOf c,
-                         subs := [approveInv m.p c.token user c.maxFee c.expiration, targetInv c] } }
-      else { plain := natList ((kv? r "auth").getD "-"), user := parseUserAuth r }
-    let op : Op :=
-      if m.var = "pl" then .forwardPL c user rel tgt
-      else if m.var = "pd" then .forwardPD c user rel tgt
-      else .forwardLib c user rel (if (kv? r "eager") = some "1" then .eager else .lazy) tgt
-    pure ⟨au, op⟩
+    pure (.forward ((kv? r "mode") = some "all") (natList ((kv? r "auth").getD "-")) (parseUserAuth r) c user rel
+      (parseTarget ((kv? r "tgt").getD "fail")) ((kv? r "eager") = some "1")
+      ((kv? r "uas").getD "-") ((kv? r "uat").getD "-"))
   | "ff" :: "allow" :: r => do
-    let all := (kv? r "mode") = some "all"
-    let au : Auth := ⟨if all then everyone else natList ((kv? r "auth").getD "-"), none⟩
-    let tok ← kvNat? r "tok"
-    let allowed := (kv? r "allowed") = some "1"
-    if m.var = "pd" then pure ⟨au, .setAllowedPD tok (← kvNat? r "op") allowed⟩
-    else if m.var = "lib" then pure ⟨au, .setAllowedLib tok allowed⟩
-    else none
+    pure (.allow ((kv? r "mode") = some "all") (natList ((kv? r "auth").getD "-")) (← kvNat? r "tok")
+      (kvNat? r "op") ((kv? r "allowed") = some "1"))
   | "ff" :: "sweep" :: r => do
-    let all := (kv? r "mode") = some "all"
-    let au : Auth := ⟨if all then everyone else natList ((kv? r "auth").getD "-"), none⟩
-    let tok ← kvNat? r "tok"
-    let to ← kvNat? r "to"
-    if m.var = "pd" then pure ⟨au, .sweepPD tok to (← kvNat? r "op")⟩
-    else if m.var = "lib" then pure ⟨au, .sweepLib tok to⟩
-    else none
+    pure (.sweep ((kv? r "mode") = some "all") (natList ((kv? r "auth").getD "-")) (← kvNat? r "tok")
+      (← kvNat? r "to") (kvNat? r "op"))
   | _ => none
 
 /-! ### printing the model's observation -/
 
-def showOptNat : Option Nat → String
-  | some n => toString n
-  | none => "_"
-
-def showAl (al : AllowList) : String :=
-  let n := min (al.count + 2) (NTOK + 2)
-  let at_ := (List.range n).map (fun i => showOptNat (al.tokenAt i))
-  let toks := (List.range NTOK).map (· + TOK0)
-  let idx := toks.map (fun t => showOptNat (al.indexOf t))
-  let allowed := toks.map (fun t => if isAllowedFeeToken al t then "1" else "0")
-  s!"{al.count}|{",".intercalate at_}|{",".intercalate idx}|{"".intercalate allowed}|{if allowlistEnabled al then 1 else 0}"
-
 def showTok (s : State) (t : Nat) : String :=
-  let ts := tokAt s t
-  let b := (List.range NHOLD).map (fun i => toString (ts.bal i))
-  let a := (List.range NHOLD).map (fun i => toString (OZ.Fungible.allowance ts i FWD))
-  s!"t{t}={",".intercalate b}|{",".intercalate a}"
+  let o := tokObs s t
+  s!"t{t}={",".intercalate (o.bal.map toString)}|{",".intercalate (o.allow.map toString)}"
 
-def showInvArgs (i : Inv) : String := s!"{i.contract}:{fnName i.fn}:{showVals "," i.args}"
-
-def showCalls (s : State) : String :=
-  match s.calls.getLast? with
-  | some i => s!"{s.calls.length}:{fnName i.fn}:{showVals "," i.args}"
-  | none => "0:-:-"
+def showCalls (s : State) : String := s!"{s.calls.length}:{callsFnOf s}:{callsArgsOf s}"
 
 def showTokEvent (t : Nat) : OZ.Fungible.Event → String
   | .mint to a => s!"mint:{t}:{to}:{a}"
   | .burn f a => s!"burn:{t}:{f}:{a}"
   | .transfer f to a => s!"transfer:{t}:{f}:{to}:{a}"
   | .approve o sp a lu => s!"approve:{t}:{o}:{sp}:{a}:{lu}"
-
-def showVec (l : List Val) : String := s!"[{showVals "+" l}]"
 
 def showEvent : Event → String
   | .feeCollected u r t a => s!"fee:{u}:{r}:{t}:{a}"
@@ -166,81 +112,55 @@ def showEvent : Event → String
   | .tokensSwept t r a => s!"swept:{t}:{r}:{a}"
 
 def showEvents (s s' : State) : String :=
-  let toks := (List.range NTOK).map (· + TOK0)
   let te := toks.flatMap (fun t => (((s'.toks t).events.drop (s.toks t).events.length).map (showTokEvent t)))
   let fe := (s'.events.drop s.events.length).map showEvent
   let all := te ++ fe
   if all.isEmpty then "-" else ";".intercalate all
 
+/-- prints exactly the fields of `OZ.FeeForwarder.Mon.obsOf s` -/
 def showState (s : State) : String :=
-  let toks := (List.range NTOK).map (fun k => showTok s (k + TOK0))
-  s!"now={s.now} al={showAl s.al} {" ".intercalate toks} calls={showCalls s}"
+  s!"now={s.now} al={showAl s.al} {" ".intercalate (toks.map (showTok s))} calls={showCalls s}"
 
-def sortStrs (l : List String) : List String := l.mergeSort (fun a b => decide (a ≤ b))
-
-def callArgs (c : Call) : String :=
-  s!"a{c.token},i{c.fee},i{c.maxFee},u{c.expiration},a{c.target},s{fnName c.fn},{showVec c.args}"
-
-def tupleArgs (c : Call) : String :=
-  s!"a{c.token},i{c.maxFee},u{c.expiration},a{c.target},s{fnName c.fn},{showVec c.args}"
-
-def userEntry (user : Nat) (c : Call) (subs : List Inv) : String :=
-  let root := s!"{user}@{FWD}:forward:{tupleArgs c}"
-  if subs.isEmpty then root else root ++ "{" ++ "|".intercalate (subs.map showInvArgs) ++ "}"
-
-/-- the authorizations a successful op consumed (`env.auths()` of the real host), from the
-model's `usedSubs` evaluated in the state BEFORE the op -/
-def showDem (m : M) (op : Op) : String :=
-  match op with
-  | .mint .. => "-"
-  | .advance _ => "-"
-  | .approve tok o sp a lu => s!"{o}@{tok}:approve:a{o},a{sp},i{a},u{lu}"
-  | .forwardPL c u r tgt =>
-    ";".intercalate (sortStrs [s!"{r}@{FWD}:forward:{callArgs c},a{u},a{r}",
-      userEntry u c (usedSubs m.p m.s c u .eager tgt)])
-  | .forwardPD c u r tgt =>
-    ";".intercalate (sortStrs [s!"{r}@{FWD}:forward:{callArgs c},a{u},a{r}",
-      userEntry u c (usedSubs m.p m.s c u .lazy tgt)])
-  | .forwardLib c u _ ap tgt => userEntry u c (usedSubs m.p m.s c u ap tgt)
-  | .setAllowedPD tok o a => s!"{o}@{FWD}:{if a then "enable_fee_token" else "disable_fee_token"}:a{tok},a{o}"
-  | .sweepPD tok r o => s!"{o}@{FWD}:sweep_tokens:a{tok},a{r},a{o}"
-  | .setAllowedLib .. => "-"
-  | .sweepLib .. => "-"
-
+/-- model side: `mstep` on the parsed line; prints `obsOf` of the new state, the events of the call
+and `showDem (modelDem …)` — i.e. `OZ.FeeForwarder.Mon.modelObs` (plus `ev=`, which the monitor does
+not look at) -/
 def stepLine (m : M) (line : String) : M × String :=
-  match parseOp m (words line) with
-  | none => (m, s!"err {showState m.s} ev=- dem=-")
-  | some ⟨au, op⟩ =>
-    match apply m.p m.s au op with
-    | .ok s' => ({ m with s := s' }, s!"ok {showState s'} ev={showEvents m.s s'} dem={showDem m op}")
-    | .error _ => (m, s!"err {showState m.s} ev=- dem=-")
+  let i := (parseIn (words line)).getD .bad
+  let r := mstep m.p m.var m.s i
+  if r.2 then ({ m with s := r.1 }, s!"ok {showState r.1} ev={showEvents m.s r.1} dem={showDem (modelDem m.p m.var m.s i)}")
+  else (m, s!"err {showState m.s} ev=- dem=-")
 
-/-! ### the monitor: the property evaluated on the implementation's observations -/
-
-structure TokObs where
-  bal : List Int
-  allow : List Int
-  deriving Repr, BEq
-
-structure Obs where
-  ok : Bool
-  now : Nat
-  alCount : Nat
-  alAt : List String
-  alIdx : List String
-  alAllowed : String
-  alEnabled : String
-  alRaw : String
-  toks : List TokObs          -- tokens 8..11
-  callsN : Nat
-  callsFn : String
-  callsArgs : String
-  dem : String
+/-! ### parsing an observation line for the monitor -/
 
 def parseTokObs (s : String) : Option TokObs :=
   match s.splitOn "|" with
   | [b, a] => some ⟨intList b, intList a⟩
   | _ => none
+
+/-- `_`, a canonically printed number, or junk -/
+def parseCell (w : String) : Cell :=
+  if w = "_" then .empty
+  else match w.toNat? with
+    | some n => if toString n = w then .num n else .junk w
+    | none => .junk w
+
+/-- `who@contract:fn:a,b,c{sub|sub}`; anything of another shape becomes an entry that equals no
+expected one (`who = none`) -/
+def parseEntry (en : String) : DemEntry :=
+  let parts := en.splitOn "{"
+  let head := parts.headD ""
+  let subs := match parts with
+    | [_, rest] => (rest.dropEnd 1).toString.splitOn "|"
+    | _ => []
+  let junk : DemEntry := { who := none, contract := head, fn := "", args := [], subs }
+  match head.splitOn "@" with
+  | [who, inv] =>
+    match inv.splitOn ":" with
+    | [c, f, a] => { who := who.toNat?.filter (fun n => toString n = who), contract := c, fn := f, args := a.splitOn ",", subs }
+    | _ => junk
+  | _ => junk
+
+def parseDem (s : String) : List DemEntry := if s = "-" then [] else (s.splitOn ";").map parseEntry
 
 def parseObs (line : String) : Option Obs :=
   match words line with
@@ -251,160 +171,28 @@ def parseObs (line : String) : Option Obs :=
     let calls ← kv? r "calls"
     match alRaw.splitOn "|", calls.splitOn ":" with
     | [cnt, at_, idx, allowed, en], [n, f, a] =>
-      pure { ok := tag = "ok", now, alCount := ← cnt.toNat?, alAt := at_.splitOn ",", alIdx := idx.splitOn ",",
-             alAllowed := allowed, alEnabled := en, alRaw, toks, callsN := ← n.toNat?, callsFn := f, callsArgs := a,
-             dem := (kv? r "dem").getD "-" }
+      let demRaw := (kv? r "dem").getD "-"
+      pure { ok := tag = "ok", now, alCount := ← cnt.toNat?, alAt := (at_.splitOn ",").map parseCell,
+             alIdx := (idx.splitOn ",").map parseCell, alAllowed := allowed, alEnabled := en, alRaw, toks,
+             callsN := ← n.toNat?, callsFn := f, callsArgs := a, dem := parseDem demRaw, demRaw }
     | _, _ => none
   | _ => none
 
-structure Mon where
-  prev : Option Obs
-  allowed : List Nat         -- ghost: tokens allowed and not since removed, in order of the accepted ops
-  var : String
+/-! ### the monitor: parse, then `checkCore` -/
 
-def zeroTok : TokObs := ⟨List.replicate NHOLD 0, List.replicate NHOLD 0⟩
-
-/-- the allow-list getters must describe exactly the ghost set, with gap-free indices -/
-def checkAllowlist (ghost : List Nat) (o : Obs) : Option String :=
-  let n := ghost.length
-  let live := o.alAt.take n
-  let dead := o.alAt.drop n
-  let liveNats := live.filterMap String.toNat?
-  let toks := (List.range NTOK).map (· + TOK0)
-  if o.alCount ≠ n then some s!"site=ff.allowlist.count count={o.alCount} but {n} tokens are allowed"
-  else if liveNats.length ≠ n ∨ ¬ liveNats.Nodup ∨ liveNats.any (fun t => ¬ ghost.contains t) then
-    some s!"site=ff.allowlist.enumeration entries 0..count-1 are {live} but the allowed set is {ghost}"
-  else if dead.any (· ≠ "_") then some s!"site=ff.allowlist.stale an entry at index >= count exists: {o.alAt}"
-  else if (toks.zip o.alIdx).any (fun (t, ix) =>
-      if ghost.contains t then (match ix.toNat? with | some i => o.alAt.getD i "_" ≠ toString t | none => true)
-      else ix ≠ "_") then
-    some s!"site=ff.allowlist.index index map {o.alIdx} is not the inverse of the enumeration {o.alAt}"
-  else if o.alAllowed ≠ "".intercalate (toks.map (fun t => if n = 0 ∨ ghost.contains t then "1" else "0")) then
-    some s!"site=ff.allowlist.accepted is_allowed_fee_token={o.alAllowed} but allowed set is {ghost}"
-  else if o.alEnabled ≠ (if n = 0 then "0" else "1") then some "site=ff.allowlist.enabled wrong enabled flag"
-  else none
-
-def zeroObs : Obs :=
-  { ok := true, now := 0, alCount := 0, alAt := ["_", "_"], alIdx := List.replicate NTOK "_"
-    alAllowed := "1111", alEnabled := "0", alRaw := "0|_,_|_,_,_,_|1111|0"
-    toks := List.replicate NTOK zeroTok, callsN := 0, callsFn := "-", callsArgs := "-", dem := "-" }
-
-def nth (l : List Int) (i : Nat) : Int := l.getD i 0
+def minit (label : String) : Mon := { prev := zeroObs, allowed := [], var := parseVar label }
 
 def check (m : Mon) (opl obs : String) : Mon × Option String :=
   match parseObs obs with
   | none => (m, some s!"site=ff.parse unparsable observation {obs}")
-  | some o =>
-    let ws := words opl
-    let kind := (ws.drop 1).head?.getD ""
-    let prev : Obs := m.prev.getD zeroObs
-    let exact := (kv? ws "mode") ≠ some "all"
-    let auth := natList ((kv? ws "auth").getD "-")
-    -- ghost allowed set: updated by ACCEPTED allow/disallow ops only
-    let tokArg := (kvNat? ws "tok").getD 0
-    let nAdv := (kvNat? ws "n").getD 0
-    let ghost' : List Nat :=
-      if o.ok ∧ kind = "allow" then
-        (if (kv? ws "allowed") = some "1" then m.allowed ++ [tokArg] else m.allowed.filter (· ≠ tokArg))
-      else m.allowed
-    let m' : Mon := { m with prev := some o, allowed := ghost' }
-    let unchangedToks := o.toks == prev.toks
-    let fail : Option String :=
-      if ¬ o.ok then
-        (if o.alRaw ≠ prev.alRaw ∨ ¬ unchangedToks ∨ o.callsN ≠ prev.callsN ∨ o.callsFn ≠ prev.callsFn
-            ∨ o.callsArgs ≠ prev.callsArgs then
-          some "site=ff.rollback a rejected call changed the allow-list, a balance, an allowance or the target's call log"
-        else checkAllowlist ghost' o)
-      else if kind = "forward" then
-        let user := (kvNat? ws "user").getD 0
-        let rel := (kvNat? ws "rel").getD 0
-        let fee := (kvInt? ws "fee").getD 0
-        let mx := (kvInt? ws "max").getD 0
-        let exp := (kvNat? ws "exp").getD 0
-        let target := (kvNat? ws "target").getD 0
-        let fn := (kv? ws "fn").getD "?"
-        let args := (kv? ws "args").getD "-"
-        let rcp := if m.var = "pd" then FWD else rel
-        let k := tokArg - TOK0
-        let pt := prev.toks.getD k zeroTok
-        let nt := o.toks.getD k zeroTok
-        let expectBal := (List.range NHOLD).map (fun h =>
-          nth pt.bal h - (if h = user then fee else 0) + (if h = rcp then fee else 0))
-        let vec := "[" ++ (if args = "-" then "-" else "+".intercalate (args.splitOn ",")) ++ "]"
-        let tuple := s!"a{tokArg},i{mx},u{exp},a{target},s{fn},{vec}"
-        let entries := o.dem.splitOn ";"
-        let userRoot := s!"{user}@{FWD}:forward:{tuple}"
-        let userEntries := entries.filter (fun en => en = userRoot ∨ en.startsWith (userRoot ++ "{"))
-        let okSubs : List String := [s!"{tokArg}:approve:a{user},a{FWD},i{mx},u{exp}", s!"{target}:{fn}:{args}"]
-        let subsOf (en : String) : List String :=
-          match en.splitOn "{" with
-          | [_, rest] => (rest.dropEnd 1).toString.splitOn "|"
-          | _ => []
-        let uasS := (kv? ws "uas").getD "-"
-        let uatS := (kv? ws "uat").getD "-"
-        let relRoot := s!"{rel}@{FWD}:forward:a{tokArg},i{fee},i{mx},u{exp},a{target},s{fn},{vec},a{user},a{rel}"
-        if ¬ (0 < fee ∧ fee ≤ mx) then some s!"site=ff.bounds accepted with fee={fee} max={mx}"
-        else if exp < o.now then some s!"site=ff.expired accepted with expiration {exp} < ledger {o.now}"
-        else if user = FWD then some "site=ff.user-is-forwarder accepted with user = forwarder"
-        else if tokArg < TOK0 ∨ tokArg ≥ TOK0 + NTOK then some "site=ff.token fee token is not a token"
-        else if ¬ (m.allowed.isEmpty ∨ m.allowed.contains tokArg) then
-          some s!"site=ff.token-not-allowed token {tokArg} accepted but allow-list is {m.allowed}"
-        else if nt.bal ≠ expectBal then
-          some s!"site=ff.charge balances of token {tokArg} are {nt.bal}, expected {expectBal} (user {user} -{fee}, recipient {rcp} +{fee})"
-        else if (List.range NTOK).any (fun j => j ≠ k ∧ ¬ (o.toks.getD j zeroTok == prev.toks.getD j zeroTok)) then
-          some "site=ff.other-token another token's balances or allowances moved"
-        else if (List.range NHOLD).any (fun h => h ≠ user ∧ nth nt.allow h ≠ nth pt.allow h) then
-          some "site=ff.allowance an allowance of somebody else changed"
-        else if nth nt.allow user < 0 ∨ nth nt.allow user > max (nth pt.allow user) mx - fee then
-          some s!"site=ff.allowance-exposure allowance user->forwarder is {nth nt.allow user}, was {nth pt.allow user}, max={mx} fee={fee}"
-        else if o.callsN ≠ prev.callsN + 1 ∨ target ≠ TGT ∨ o.callsFn ≠ fn ∨ o.callsArgs ≠ args then
-          some s!"site=ff.target-call target log {o.callsN}:{o.callsFn}:{o.callsArgs}, before {prev.callsN}; call was {target}.{fn}({args})"
-        else if userEntries.length ≠ 1 then
-          some s!"site=ff.user-auth the user's demanded authorization does not cover exactly ({tuple}): {o.dem}"
-        else if userEntries.any (fun en => (subsOf en).any (fun sb => ¬ okSubs.contains sb)) then
-          some s!"site=ff.user-auth-sub the user's authority was used for a foreign nested call: {o.dem}"
-        else if m.var ≠ "lib" ∧ ¬ entries.contains relRoot then
-          some s!"site=ff.relayer-auth the relayer's authorization was not demanded: {o.dem}"
-        else if m.var = "pd" ∧ ¬ [2, 3].contains rel then some s!"site=ff.executor-role relayer {rel} is no executor"
-        else if exact ∧ m.var ≠ "lib" ∧ ¬ auth.contains rel then some "site=ff.relayer-auth accepted without the relayer's authorization"
-        else if exact ∧ ((kvNat? ws "uas") ≠ some user ∨ (kv? ws "uat") ≠ some s!"{tokArg}:{mx}:{exp}:{target}:{fn}:{args}") then
-          some s!"site=ff.accepted-with-wrong-auth user signed uas={uasS} uat={uatS} but the call is user={user} ({tuple})"
-        else checkAllowlist ghost' o
-      else if o.callsN ≠ prev.callsN then some "site=ff.spurious-call the target was invoked by a non-forward operation"
-      else if kind = "advance" ∧ (o.alRaw ≠ prev.alRaw ∨ o.toks.map (·.bal) ≠ prev.toks.map (·.bal)) then
-        some s!"site=ff.idle.changed the mere passing of {nAdv} ledgers changed the allow-list getters ({prev.alRaw} -> {o.alRaw}) or a balance"
-      else if kind = "allow" then
-        let allowed := (kv? ws "allowed") = some "1"
-        let oper := (kvNat? ws "op").getD 99
-        if allowed ∧ m.allowed.contains tokArg then some s!"site=ff.allowlist.dup token {tokArg} allowed twice"
-        else if ¬ allowed ∧ ¬ m.allowed.contains tokArg then some s!"site=ff.allowlist.absent token {tokArg} removed but was not allowed"
-        else if m.var = "pd" ∧ (oper ≠ 1 ∨ (exact ∧ ¬ auth.contains oper)) then
-          some "site=ff.allow-gate allow-list changed without the manager's authorization"
-        else if ¬ unchangedToks then some "site=ff.allow-moved-tokens allow-list update moved tokens"
-        else checkAllowlist ghost' o
-      else if kind = "sweep" then
-        let to := (kvNat? ws "to").getD 0
-        let oper := (kvNat? ws "op").getD 99
-        let k := tokArg - TOK0
-        let pt := prev.toks.getD k zeroTok
-        let nt := o.toks.getD k zeroTok
-        let amt := nth pt.bal FWD
-        let expectBal := (List.range NHOLD).map (fun h =>
-          nth pt.bal h - (if h = FWD then amt else 0) + (if h = to then amt else 0))
-        if amt = 0 then some "site=ff.sweep nothing to sweep but accepted"
-        else if nt.bal ≠ expectBal then some s!"site=ff.sweep balances {nt.bal}, expected {expectBal}"
-        else if m.var = "pd" ∧ (oper ≠ 1 ∨ (exact ∧ ¬ auth.contains oper)) then
-          some "site=ff.sweep-gate swept without the manager's authorization"
-        else checkAllowlist ghost' o
-      else checkAllowlist ghost' o
-    (m', fail)
+  | some o => checkCore m ((parseIn (words opl)).getD .bad) o
 
 def machine : Machine where
   σ := M
   init := initM
   op := stepLine
   μ := Mon
-  minit := fun label => { prev := none, allowed := [], var := (kv? (words label) "v").getD "pl" }
+  minit := minit
   mon := check
 
 end OZ.Drv.C19
